@@ -12,9 +12,11 @@ var table = map[string]func(*checks.Run){
 	"FIX": checks.Fixtures,
 	"C02": checks.C02,
 	"C19": checks.C19,
+	"C20": checks.C20,
 	"C18": checks.C18,
 	"C03": checks.C03,
 	"C06": checks.C06,
+	"C09": checks.C09,
 	"C08": checks.C08,
 	"C07": checks.C07,
 	"C10": checks.C10,
@@ -44,6 +46,8 @@ func main() {
 		f(r)
 		r.ReportKnown()
 		r.Finish()
+	case "race":
+		checks.RaceWorker(os.Args[2])
 	default:
 		fmt.Fprintln(os.Stderr, "unknown command", os.Args[1])
 		os.Exit(2)
